@@ -13,6 +13,20 @@ Oracles (all from the property text):
   algebra        ECDH symmetric across back ends
   invalid keys   a coordinate pair that is not a P-256 point is rejected by both back ends
   RPA            generate_private_address(irk) resolves under irk, not under another key
+
+Extension (key objects, rare encodings, the real way of losing the library):
+  keyobj         the key the stack really uses: EccKey.generate() (entropy fed from Hypothesis, a few
+                 with the operating system's) or from_private_key_bytes, ONE object per case used for
+                 a history of x / y / dh operations (valid peer, the same x with a wrong y, the negated
+                 peer, the same peer again ...); every answer is judged against the harness's own
+                 affine P-256 arithmetic: the property holds for every call, not only for the first
+                 call on a fresh key
+  small_secret   peer = d^-1 * T for a point T with a small x: the shared secret has 1..32 leading
+                 zero octets (x = 0 included); public keys with a leading zero octet are looked up by
+                 walking k*G
+  selection      the toolbox is loaded a third time with the third-party package `cryptography`
+                 itself unimportable (what a machine without the library looks like) and must still
+                 reproduce FIPS-197 / RFC 4493 / 2*G
 """
 
 from __future__ import annotations
@@ -38,7 +52,20 @@ RULE = (
     'rpa: the real Address.generate_private_address (its entropy fed from Hypothesis through the '
     "toolbox's `secrets`; a few cases per run use the operating system's entropy and record the address) "
     'and smp.AddressResolver, generation and resolution each on either back end. '
-    'non-trivial = some input byte/scalar is not zero; distinct by (function, argument bytes).'
+    'keyobj: one EccKey object per case, made by EccKey.generate() (scalar fed through builtin.secrets / '
+    "the library's ec.generate_private_key; 1 in 8 with the operating system's entropy, scalar read back from "
+    'the key and recorded) or by from_private_key_bytes, on either back end, then 3..9 operations on THAT object: '
+    'x, y, dh(valid lifted peer), dh(negated peer), dh(same x with y+1 / y-1 / y=0), dh(swapped), dh(x of one '
+    'peer with y of another), peers from a pool of 1..3 so that peers and abscissas repeat; plus directed '
+    'programs (valid, same x wrong y, valid again, y, x, negated, ...) at boundary scalars. Every answer is '
+    'compared with the harness\'s own affine arithmetic on the FIPS 186-4 parameters. '
+    'small_secret: shared point T lifted from an x of at most 8*(32-z) bits, z = 1..32 (x = 0 included), '
+    'peer = d^-1 * T computed by the harness; directed for every z plus random (d, z, x). '
+    'pubkey_leading_zero: the first scalars k whose k*G has a leading zero octet in x resp. y (found by walking k*G). '
+    'selection: besides hiding bumble.crypto.cryptography, the third-party package `cryptography` itself is hidden '
+    'and both bumble.crypto.cryptography and the toolbox are executed afresh. '
+    'non-trivial = some input byte/scalar is not zero; distinct by (function, argument bytes) resp. '
+    '(back end, origin, scalar, operation list).'
 )
 ASSUMPTIONS = [
     'arguments have the sizes the callers use (16-byte keys/blocks, 32-byte big-endian coordinates, '
@@ -50,8 +77,15 @@ ASSUMPTIONS = [
     'rejected = dh() raises any exception; any returned value counts as producing a shared secret',
     'a generated RPA resolving under one unrelated IRK is re-tried with a second unrelated IRK '
     '(2^-24 coincidence) before it is called a violation',
+    'EccKey.generate(): the reference scalar is the one the key object itself holds (private_key.key / '
+    'private_key.private_numbers().private_value), not the injected entropy - how entropy is turned into a scalar '
+    'is not part of the property; an entropy source answering 0 (secrets.randbelow may, with probability 2^-256) '
+    'gives the scalar 0, which is outside the quantifier [1, n-1], and is not generated',
+    'keyobj operations only use coordinates < p (the >= p classes are judged by invalid_key on fresh keys)',
+    'a machine without the library = `import cryptography` raises ImportError; the toolbox executed there must '
+    'compute the sample data (which primitives it binds is not prescribed, only that they work)',
 ]
-SHRINK_KEYS = ()
+SHRINK_KEYS = ('ops',)
 
 # ---------------------------------------------------------------------------
 # P-256 domain parameters (FIPS 186-4 D.1.2.3), the harness's own copy
@@ -112,6 +146,48 @@ def i32(b: bytes) -> int:
     return int.from_bytes(b, 'big')
 
 
+def ec_add(p1, p2):
+    """Affine group law on P-256; None is the point at infinity (harness's own reference)."""
+    if p1 is None:
+        return p2
+    if p2 is None:
+        return p1
+    x1, y1 = p1
+    x2, y2 = p2
+    if x1 == x2:
+        if (y1 + y2) % P == 0:
+            return None
+        lam = (3 * x1 * x1 + A) * pow(2 * y1, -1, P) % P
+    else:
+        lam = (y2 - y1) * pow(x2 - x1, -1, P) % P
+    x3 = (lam * lam - x1 - x2) % P
+    return x3, (lam * (x1 - x3) - y1) % P
+
+
+def ec_mul(k: int, pt):
+    acc = None
+    add = pt
+    while k > 0:
+        if k & 1:
+            acc = ec_add(acc, add)
+        add = ec_add(add, add)
+        k >>= 1
+    return acc
+
+
+_REF_MUL: dict = {}
+
+
+def ref_mul(k: int, pt):
+    """ec_mul with a small memo (the same scalar meets the same peer many times in key-object histories)."""
+    key = (k, pt)
+    if key not in _REF_MUL:
+        if len(_REF_MUL) > 4096:
+            _REF_MUL.clear()
+        _REF_MUL[key] = ec_mul(k, pt)
+    return _REF_MUL[key]
+
+
 # ---------------------------------------------------------------------------
 # Back ends
 # ---------------------------------------------------------------------------
@@ -126,6 +202,7 @@ class Env:
         self.load_error = None
         self.selection_problem = None
         self.full_builtin_toolbox = False
+        self.no_third_party = None  # outcome of probe_third_party_hidden()
 
 
 _ENV = None
@@ -153,6 +230,83 @@ def _load_builtin_toolbox():
             sys.modules[key] = saved
     sys.modules[name] = mod
     return mod
+
+
+def probe_third_party_hidden() -> dict:
+    """Execute the toolbox where `import cryptography` fails, and compute sample data there.
+
+    Different from _load_builtin_toolbox(): there bumble.crypto.cryptography is what cannot be
+    imported; here it is the third-party package (a machine without the library), so
+    bumble/crypto/cryptography.py is executed afresh, fails inside, and the failure has to reach the
+    toolbox's fallback. Everything touched in sys.modules is put back.
+    """
+    import bumble.crypto as pkg
+
+    name = 'bumble_crypto__no_third_party'
+    key = 'bumble.crypto.cryptography'
+    missing = object()
+    path = os.path.join(os.path.dirname(pkg.__file__), '__init__.py')
+    hidden = {k: v for k, v in sys.modules.items() if k == 'cryptography' or k.startswith('cryptography.')}
+    saved_lib = sys.modules.get(key, missing)
+    saved_attr = pkg.__dict__.get('cryptography', missing)
+    out = {'loaded': False, 'error': None, 'wrong': [], 'primitives': None}
+    for k in hidden:
+        del sys.modules[k]
+    sys.modules['cryptography'] = None
+    sys.modules.pop(key, None)
+    try:
+        try:
+            spec = importlib.util.spec_from_file_location(name, path)
+            mod = importlib.util.module_from_spec(spec)
+            spec.loader.exec_module(mod)
+            out['loaded'] = True
+        except Exception as ex:  # the fallback is code under test
+            out['error'] = f'{type(ex).__name__}: {str(ex)[:160]}'
+            mod = None
+        if mod is not None:
+            out['primitives'] = getattr(getattr(mod, 'e', None), '__module__', None)
+            # still hidden: a back end that needs the library only when called fails here
+            for aname in ('fips197_appendix_b', 'rfc4493_len0', 'rfc4493_len40', 'rfc4493_len64', 'core_ah',
+                          'core_f4', 'p256_2g', 'core_p256_dhkey_a'):
+                _, _, _, thunk, expected = _ANCHOR_BY_NAME[aname]
+                got = call(thunk, mod)
+                if not (got[0] == 'ok' and _norm(got[1]) == _norm(expected)):
+                    out['wrong'].append(f'{aname}: {_show(got[1]) if got[0] == "ok" else got[1]}')
+    finally:
+        for k in [k for k in sys.modules if k == 'cryptography' or k.startswith('cryptography.')]:
+            del sys.modules[k]
+        sys.modules.update(hidden)
+        if saved_lib is missing:
+            sys.modules.pop(key, None)
+        else:
+            sys.modules[key] = saved_lib
+        if saved_attr is missing:
+            pkg.__dict__.pop('cryptography', None)
+        else:
+            pkg.__dict__['cryptography'] = saved_attr
+        sys.modules.pop(name, None)
+    return out
+
+
+def judge_third_party_hidden(ctx, ev) -> None:
+    r = ev.no_third_party
+    if r is None:
+        return
+    case = {'kind': 'selection'}
+    if not r['loaded']:
+        ctx.fail(
+            'selection/fallback_third_party_missing',
+            f'bumble/crypto/__init__.py executed where `import cryptography` fails: {r["error"]}',
+            case,
+        )
+    elif r['wrong']:
+        ctx.fail(
+            'selection/fallback_third_party_missing',
+            f'toolbox loaded where `import cryptography` fails (primitives from {r["primitives"]}) does not '
+            f'reproduce the sample data: {"; ".join(r["wrong"][:3])}',
+            case,
+        )
+    ctx.case(('selection', 'third_party_hidden'), True, ['selection_third_party_hidden'])
 
 
 def env(ctx=None) -> Env:
@@ -195,6 +349,18 @@ def env(ctx=None) -> Env:
     e.full_builtin_toolbox = tb is not None
     if not on_curve(GX, GY) or not on_curve(*lift_x(0, False)):
         raise HarnessError('harness P-256 constants are inconsistent')
+    g = (GX, GY)
+    if (
+        ec_mul(N, g) is not None
+        or ec_mul(N - 1, g) != (GX, P - GY)
+        or ec_mul(2, g) != (0x7CF27B188D034F7E8A52380304B51AC3C08969E277F21B35A60B48FC47669978,
+                            0x07775510DB8ED040293D9AC69F7430DBBA7DADE63CE982299E04B79D227873D1)
+        or ec_mul(i32(bytes.fromhex(_5903_I)), g) != (i32(bytes.fromhex(_5903_IX)), i32(bytes.fromhex(_5903_IY)))
+    ):
+        raise HarnessError('harness P-256 arithmetic is wrong')
+    e.no_third_party = probe_third_party_hidden()
+    if sys.modules.get('bumble.crypto.cryptography') is not lib_mod or normal.e is not lib_mod.e:
+        raise HarnessError('probe_third_party_hidden did not restore the module table')
     _ENV = e
     return e
 
@@ -650,6 +816,10 @@ def run_ecdh_case(ctx, da: int, db: int) -> None:
             ctx.fail('anchor/pubkey/off_curve', f'public key of scalar {d:#x} is not on P-256 (both back ends)', case)
             ok = False
             continue
+        if x[0] == 0:
+            labels.add('pubkey_x_leading_zero_octet')
+        if y[0] == 0:
+            labels.add('pubkey_y_leading_zero_octet')
         pubs[who] = (x, y)
     if ok:
         # secret[owner][back end]
@@ -664,6 +834,8 @@ def run_ecdh_case(ctx, da: int, db: int) -> None:
                 ok = False
                 continue
             sec[who] = {be: bytes(outs[be][1]) for be in BACKENDS}
+            if sec[who]['lib'][0] == 0:
+                labels.add('dh_secret_leading_zero_octet')
         if ok:
             # with the differential clause holding, A(built-in) vs B(library) and A(library) vs B(built-in)
             if sec['A']['builtin'] != sec['B']['lib'] or sec['A']['lib'] != sec['B']['builtin']:
@@ -695,6 +867,8 @@ def run_lifted_case(ctx, d: int, x0: int, odd: bool) -> None:
             ctx.fail('diff/dh/length', f'dh returned {_show(v)}', case)
         elif d == 1 and bytes(v) != b32(x):
             ctx.fail('anchor/dh/identity', 'dh with scalar 1 does not return the x coordinate of the peer key', case)
+        elif bytes(v)[0] == 0:
+            labels.add('dh_secret_leading_zero_octet')
     ctx.case(
         ('lift', d, x, y),
         True,
@@ -820,6 +994,357 @@ def simple_invalid_cases():
         out.append(('y_plus_1', d, ax, ay + 1))
         out.append(('twist',) + (d,) + twist_point(5, False))
     return out
+
+
+# ---------------------------------------------------------------------------
+# shared secrets / public keys with leading zero octets (directed)
+# ---------------------------------------------------------------------------
+_ZERO_OCTET_CLASSES = (1, 2, 4, 8, 16, 31)
+
+
+def small_x0(z: int, r: int) -> int:
+    """An abscissa seed of at most 8*(32-z) bits (z leading zero octets or more), from a 256-bit draw."""
+    width = 8 * (32 - z)
+    return r % (1 << width) if width else 0
+
+
+def run_small_secret_case(ctx, d: int, x0: int, odd: bool) -> None:
+    """dh(d, d^-1 * T) must be the x coordinate of T on both back ends (T lifted from a small x)."""
+    ev = env(ctx)
+    if seen_before(ctx, ('small_secret', d, x0, odd)):
+        return
+    tx, ty = lift_x(x0, odd)
+    peer = ec_mul(pow(d, -1, N), (tx, ty))
+    case = {'kind': 'small_secret', 'd': b32(d), 'x0': b32(x0 % P), 'odd': bool(odd)}
+    labels = {'small_secret'}
+    labels.update(scalar_labels(d))
+    z = 32 - (tx.bit_length() + 7) // 8
+    for k in _ZERO_OCTET_CLASSES:
+        if z >= k:
+            labels.add(f'secret_leading_zero_octets>={k}')
+    if tx == 0:
+        labels.add('secret=0')
+    if peer is None or not on_curve(*peer) or ec_mul(d, peer) != (tx, ty):
+        from vlib.runner import HarnessError
+
+        raise HarnessError('harness arithmetic: d * (d^-1 * T) != T')
+    outs = {be: call(shared, ev.tb[be], d, b32(peer[0]), b32(peer[1])) for be in BACKENDS}
+    want = b32(tx)
+    bad = {be: o for be, o in outs.items() if not (o[0] == 'ok' and _norm(o[1]) == want)}
+    if len(bad) == 2 and outs['lib'] == outs['builtin']:
+        ctx.fail(
+            'anchor/dh/small_secret',
+            f'dh(d, d^-1*T) gives {_show(outs["lib"][1])} on both back ends; the x coordinate of T is {want.hex()}',
+            case,
+        )
+    else:
+        for be, o in bad.items():
+            ctx.fail(
+                f'anchor/dh/small_secret/{be}',
+                f'{be} back end: dh(d, d^-1*T) gives {_show(o[1]) if o[0] == "ok" else o[1]}; the x coordinate of T '
+                f'({z} leading zero octets) is {want.hex()}',
+                case,
+            )
+    ctx.case(
+        ('small_secret', d, tx, ty),
+        True,
+        labels,
+        sample=sample_of('small_secret', {'kind': 'small_secret', 'd': hex(d), 'secret': want.hex()}),
+    )
+
+
+def scalars_with_leading_zero_public_key(n_each: int, limit: int = 20000):
+    """The first n_each scalars k with (k*G).x < 2^248, and the first n_each with (k*G).y < 2^248."""
+    fx, fy = [], []
+    pt = None
+    for k in range(1, limit):
+        pt = ec_add(pt, (GX, GY))
+        if pt[0] >> 248 == 0 and len(fx) < n_each:
+            fx.append(k)
+        if pt[1] >> 248 == 0 and len(fy) < n_each:
+            fy.append(k)
+        if len(fx) >= n_each and len(fy) >= n_each:
+            break
+    return fx, fy
+
+
+# ---------------------------------------------------------------------------
+# key objects: EccKey.generate(), and one object used for a history of operations
+# ---------------------------------------------------------------------------
+class _FixedScalarSecrets:
+    """Stands in for `secrets` inside builtin.py while a key is generated."""
+
+    def __init__(self, d: int, real):
+        self._d = d
+        self._real = real
+        self.calls = 0
+
+    def randbelow(self, bound):
+        self.calls += 1
+        return self._d % bound
+
+    def randbits(self, k):
+        self.calls += 1
+        return self._d & ((1 << k) - 1)
+
+    def token_bytes(self, n=None):
+        self.calls += 1
+        n = 32 if n is None else n
+        return (self._d % (1 << (8 * n))).to_bytes(n, 'big') if n else b''
+
+    def __getattr__(self, name):
+        return getattr(self._real, name)
+
+
+class _EcProxy:
+    """Stands in for the module `ec` inside bumble/crypto/cryptography.py while a key is generated:
+    generate_private_key(curve) gives the key of the scalar of the case on the curve that was asked for."""
+
+    def __init__(self, d: int, real):
+        self._d = d
+        self._real = real
+        self.calls = 0
+
+    def generate_private_key(self, curve, *args, **kwargs):
+        self.calls += 1
+        return self._real.derive_private_key(self._d, curve, *args, **kwargs)
+
+    def __getattr__(self, name):
+        return getattr(self._real, name)
+
+
+def _generate_key(ev: Env, be: str, d):
+    """EccKey.generate() of back end `be`; d = scalar to feed as entropy, or None for the system's."""
+    import bumble.crypto.builtin as builtin_mod
+    import bumble.crypto.cryptography as lib_mod
+
+    cls = ev.tb[be].EccKey
+    if d is None:
+        return call(cls.generate), 0
+    if be == 'builtin':
+        real = builtin_mod.secrets
+        fake = _FixedScalarSecrets(d, real)
+        builtin_mod.secrets = fake
+        try:
+            return call(cls.generate), fake.calls
+        finally:
+            builtin_mod.secrets = real
+    real = lib_mod.ec
+    fake = _EcProxy(d, real)
+    lib_mod.ec = fake
+    try:
+        return call(cls.generate), fake.calls
+    finally:
+        lib_mod.ec = real
+
+
+def _scalar_of(key):
+    """The private scalar an EccKey object holds (either back end), or None."""
+    try:
+        pk = key.private_key
+        if hasattr(pk, 'private_numbers'):
+            return int(pk.private_numbers().private_value)
+        return int(pk.key)
+    except Exception:
+        return None
+
+
+# operation codes of the generator -> concrete operations (plain data in the case)
+KEYOBJ_CODES = ('x', 'y', 'valid', 'neg', 'y_plus_1', 'y_minus_1', 'y_zero', 'swapped', 'mixed')
+
+
+def keyobj_ops(peers, codes) -> list:
+    pts = [lift_x(x0, odd) for x0, odd in peers]
+    ops = []
+    for code, i in codes:
+        x, y = pts[i % len(pts)]
+        what = KEYOBJ_CODES[code]
+        if what in ('x', 'y'):
+            ops.append([what])
+        elif what == 'valid':
+            ops.append(['dh', b32(x), b32(y)])
+        elif what == 'neg':
+            ops.append(['dh', b32(x), b32((P - y) % P)])
+        elif what == 'y_plus_1':
+            ops.append(['dh', b32(x), b32((y + 1) % P)])
+        elif what == 'y_minus_1':
+            ops.append(['dh', b32(x), b32((y - 1) % P)])
+        elif what == 'y_zero':
+            ops.append(['dh', b32(x), b32(0)])
+        elif what == 'swapped':
+            ops.append(['dh', b32(y), b32(x)])
+        else:
+            ops.append(['dh', b32(x), b32(pts[(i + 1) % len(pts)][1])])
+    return ops
+
+
+def run_keyobj_case(ctx, case: dict) -> None:
+    """case: be, origin ('generate' | 'bytes'), d (32 bytes; None = system entropy), ops."""
+    ev = env(ctx)
+    case = dict(case)
+    case['kind'] = 'keyobj'
+    be, origin = case['be'], case['origin']
+    ops = [list(op) for op in case['ops']]
+    d_in = i32(case['d']) if case.get('d') is not None else None
+    ops_key = tuple(tuple(bytes(a) if isinstance(a, (bytes, bytearray)) else a for a in op) for op in ops)
+    fp = ('keyobj', be, origin, d_in, ops_key)
+    if d_in is not None and seen_before(ctx, fp):
+        return
+    labels = {'keyobj', f'keyobj_be={be}', f'keyobj_origin={origin}'}
+    cls = ev.tb[be].EccKey
+    if origin == 'bytes':
+        out = call(cls.from_private_key_bytes, b32(d_in))
+    else:
+        out, injected = _generate_key(ev, be, d_in)
+        if d_in is None:
+            labels.add('keyobj_system_entropy')
+        else:
+            labels.add('keyobj_entropy_injected' if injected else 'keyobj_entropy_not_injected')
+    if out[0] != 'ok':
+        ctx.fail(f'keyobj/construct_raises/{origin}/{be}', f'EccKey ({origin}, {be} back end) raised {out[1]}', case)
+        ctx.case(fp, True, labels)
+        return
+    key = out[1]
+    if origin == 'bytes':
+        d = d_in
+    else:
+        d = _scalar_of(key)
+        if d is not None and d_in is None and 0 <= d < TWO256:
+            case['d'] = b32(d)  # a replay feeds this scalar as the entropy
+    ref_pub = ec_mul(d, (GX, GY)) if d is not None else None
+    if d is None:
+        labels.add('keyobj_scalar_unreadable')
+    elif not (1 <= d < N):
+        labels.add('keyobj_scalar_outside_quantifier')  # see ASSUMPTIONS; nothing to compare with
+        ctx.case(fp, False, labels)
+        return
+    else:
+        labels.update(scalar_labels(d))
+
+    valid_seen = set()  # (x, y) of valid peers already used on this object
+    valid_x_seen = set()
+    had_invalid = False
+    read = []
+    did_dh = False
+    for idx, op in enumerate(ops):
+        if op[0] in ('x', 'y'):
+            out = call(lambda a=op[0]: bytes(getattr(key, a)))
+            if op[0] == 'y' and 'x' not in read:
+                labels.add('keyobj_y_before_x')
+            if did_dh:
+                labels.add('keyobj_pub_after_dh')
+            if op[0] in read:
+                labels.add('keyobj_pub_read_twice')
+            read.append(op[0])
+            if out[0] != 'ok':
+                ctx.fail(f'keyobj/pubkey_raises/{origin}/{be}', f'op {idx}: EccKey.{op[0]} raised {out[1]}', case)
+            elif ref_pub is not None:
+                want = b32(ref_pub[0] if op[0] == 'x' else ref_pub[1])
+                if out[1] != want:
+                    ctx.fail(
+                        f'keyobj/pubkey/{origin}/{be}',
+                        f'op {idx}: EccKey.{op[0]} of the {origin} key with scalar {d:#x} is {out[1].hex()}, '
+                        f'd*G has {want.hex()}',
+                        case,
+                    )
+            continue
+        X, Y = bytes(op[1]), bytes(op[2])
+        x, y = i32(X), i32(Y)
+        out = call(key.dh, X, Y)
+        did_dh = True
+        if not (x < P and y < P):
+            labels.add('keyobj_op_out_of_range_not_judged')
+            continue
+        if on_curve(x, y):
+            if had_invalid:
+                labels.add('keyobj_valid_after_invalid')
+            if (x, y) in valid_seen:
+                labels.add('keyobj_repeat_valid_peer')
+            elif x in valid_x_seen:
+                labels.add('keyobj_negated_peer_after_peer')
+            valid_seen.add((x, y))
+            valid_x_seen.add(x)
+            if out[0] != 'ok':
+                ctx.fail(f'keyobj/dh_raises/{be}', f'op {idx}: dh with a valid peer key raised {out[1]}', case)
+            elif d is not None:
+                want = b32(ref_mul(d, (x, y))[0])
+                if _norm(out[1]) != want:
+                    ctx.fail(
+                        f'keyobj/dh/{be}',
+                        f'op {idx}: dh on a key object in use gives {_show(out[1])}, d*Q has x = {want.hex()}',
+                        case,
+                    )
+        else:
+            after_valid = x in valid_x_seen
+            if after_valid:
+                labels.add('keyobj_invalid_after_valid_same_x')
+            had_invalid = True
+            if out[0] == 'ok':
+                ctx.fail(
+                    f'keyobj/invalid_accepted{"_after_valid_same_x" if after_valid else ""}/{be}',
+                    f'op {idx}: {be} back end accepts a public key that is not a point on P-256'
+                    + (' (its x was used with the right y earlier on the same key object)' if after_valid else '')
+                    + f' and returns {_show(out[1])}',
+                    case,
+                )
+    ctx.case(
+        fp if d_in is not None else ('keyobj', be, origin, d, ops_key),
+        True,
+        labels,
+        sample=sample_of(
+            'keyobj',
+            {'kind': 'keyobj', 'be': be, 'origin': origin, 'd': hex(d) if d is not None else None,
+             'ops': [op[0] if len(op) == 1 else 'dh(' + ('on' if on_curve(i32(op[1]), i32(op[2])) else 'off') + '-curve)'
+                     for op in ops]},
+            2,
+        ),
+    )
+
+
+_KEYOBJ_PROGRAM = [
+    ('valid', 0), ('y_plus_1', 0), ('valid', 0), ('y', 0), ('x', 0), ('neg', 0), ('y_zero', 0),
+    ('valid', 1), ('swapped', 1), ('y_minus_1', 0), ('valid', 0), ('x', 0),
+]
+
+
+def keyobj_directed(ctx):
+    """(be, origin, d, ops): the fixed program on boundary and ordinary scalars."""
+    peers = [(i32(_h(_PUB_BX)), bool(i32(_h(_PUB_BY)) & 1)), (0, False)]
+    codes = [(KEYOBJ_CODES.index(w), i) for w, i in _KEYOBJ_PROGRAM]
+    ops = keyobj_ops(peers, codes)
+    ds = [1, i32(_h(_PRIV_A))] if ctx.quick else [1, 2, N - 1, N - 2, 1 << 255, i32(_h(_PRIV_A)), i32(_h(_5903_I))]
+    for be in BACKENDS:
+        for origin in ('generate', 'bytes'):
+            for d in ds:
+                yield {'be': be, 'origin': origin, 'd': b32(d), 'ops': ops}
+
+
+def keyobj_cases():
+    u256 = uniform256()
+    peer = st.tuples(weighted((6, u256), (1, st.integers(0, 1 << 32)), (1, st.just(0))), st.booleans())
+    code = weighted(
+        (1, st.just(0)), (1, st.just(1)), (4, st.just(2)), (2, st.just(3)), (2, st.just(4)), (1, st.just(5)),
+        (1, st.just(6)), (1, st.just(7)), (1, st.just(8)),
+    )
+    return st.fixed_dictionaries(
+        {
+            'be': st.sampled_from(BACKENDS),
+            'origin': weighted((2, st.just('generate')), (1, st.just('bytes'))),
+            'd': scalars(),
+            'system': weighted((7, st.just(False)), (1, st.just(True))),
+            'peers': st.lists(peer, min_size=1, max_size=3),
+            'codes': st.lists(st.tuples(code, st.integers(0, 2)), min_size=3, max_size=9),
+        }
+    )
+
+
+def run_keyobj_drawn(ctx, c: dict) -> None:
+    system = c['system'] and c['origin'] == 'generate'
+    run_keyobj_case(
+        ctx,
+        {'be': c['be'], 'origin': c['origin'], 'd': None if system else b32(c['d']),
+         'ops': keyobj_ops(c['peers'], c['codes'])},
+    )
 
 
 # ---------------------------------------------------------------------------
@@ -1026,6 +1551,8 @@ def run(ctx) -> None:
         'builtin_toolbox_loaded_separately': ev.full_builtin_toolbox,
     }
     ctx.extra['bumble_crypto_path'] = os.path.dirname(os.path.abspath(ev.tb['lib'].__file__))
+    judge_third_party_hidden(ctx, ev)
+    ctx.extra['third_party_hidden'] = {k: ev.no_third_party[k] for k in ('loaded', 'error', 'primitives')}
 
     # -- deterministic part (shard 0 only: it is the same everywhere) ---------
     if ctx.shard == 0:
@@ -1047,6 +1574,29 @@ def run(ctx) -> None:
         run_cmac_all_lengths(ctx, _h(_RFC_KEY), rfc)
         run_cmac_all_lengths(ctx, bytes(16), bytes(1024))
         run_cmac_all_lengths(ctx, b'\xff' * 16, b'\xff' * 1024)
+        # shared secrets with z leading zero octets, z = 32 is the secret 0 (quick: a stratified subset of z)
+        zs = [1, 2, 3, 4, 8, 15, 16, 17, 24, 30, 31, 32] if ctx.quick else list(range(1, 33))
+        ds = [i32(_h(_PRIV_B)), 2] if ctx.quick else [i32(_h(_PRIV_B)), 2, N - 1, N - 2, (N + 1) // 2, 1 << 255]
+        for z in zs:
+            for j, d in enumerate(ds):
+                if ctx.out_of_time():
+                    ctx.label('budget_hit:small_secret')
+                    break
+                x0 = (1 << (8 * (32 - z) - 1)) + 977 * j if z < 32 else 0
+                run_small_secret_case(ctx, d, x0, bool(j & 1))
+                ctx.label(f'secret_leading_zero_octets={z}')
+        # public keys with a leading zero octet in x / in y
+        fx, fy = scalars_with_leading_zero_public_key(ctx.pick(3, 8))
+        for k in fx + fy:
+            run_ecdh_case(ctx, k, i32(_h(_PRIV_B)))
+            run_ecdh_case(ctx, k, k)
+        # one key object, a fixed history of operations
+        for c in keyobj_directed(ctx):
+            if ctx.out_of_time():
+                ctx.label('budget_hit:keyobj_directed')
+                break
+            run_keyobj_case(ctx, c)
+            ctx.label('keyobj_directed')
 
     # -- primitives -----------------------------------------------------------
     ctx.hyp('e', lambda c: run_e_case(ctx, *c), st.tuples(block16(), block16()), max_examples=ctx.n(3000, 400000))
@@ -1107,6 +1657,14 @@ def run(ctx) -> None:
         max_examples=ctx.n(600, 64000),
     )
 
+    ctx.hyp(
+        'small_secret',
+        lambda c: run_small_secret_case(ctx, c[0], small_x0(c[1], c[2]), c[3]),
+        st.tuples(scalars(), st.integers(1, 32), u256, st.booleans()),
+        max_examples=ctx.n(50, 8000),
+    )
+    ctx.hyp('keyobj', lambda c: run_keyobj_drawn(ctx, c), keyobj_cases(), max_examples=ctx.n(110, 16000))
+
     # -- the generator must reach the classes the quantifier names --------------
     # (if the time budget stopped generation early the floors still apply to what was generated:
     # too little coverage is exit 2, never a pass and never a violation)
@@ -1131,6 +1689,34 @@ def run(ctx) -> None:
             ctx.floor(name, 4)
         ctx.floor('anchor', len(ANCHORS))
         ctx.floor('point_x=0', 2)
+        # directed families run in shard 0 only
+        for z in ([1, 2, 3, 4, 8, 15, 16, 17, 24, 30, 31, 32] if ctx.quick else range(1, 33)):
+            ctx.floor(f'secret_leading_zero_octets={z}', 2)
+        ctx.floor('secret=0', 2)
+        ctx.floor('pubkey_x_leading_zero_octet', 3)
+        ctx.floor('pubkey_y_leading_zero_octet', 3)
+        ctx.floor('keyobj_directed', 8)
+    ctx.floor('small_secret', 30)
+    for k in _ZERO_OCTET_CLASSES:
+        ctx.floor(f'secret_leading_zero_octets>={k}', 3)
+    ctx.floor('selection_third_party_hidden', 1)
+    for be in BACKENDS:
+        ctx.floor(f'keyobj_be={be}', 20)
+    ctx.floor('keyobj_origin=generate', 30)
+    ctx.floor('keyobj_origin=bytes', 10)
+    ctx.floor('keyobj_entropy_injected', 20)
+    ctx.floor('keyobj_system_entropy', 3)
+    ctx.floor('keyobj_invalid_after_valid_same_x', 10)
+    ctx.floor('keyobj_valid_after_invalid', 10)
+    ctx.floor('keyobj_repeat_valid_peer', 10)
+    ctx.floor('keyobj_negated_peer_after_peer', 5)
+    ctx.floor('keyobj_y_before_x', 5)
+    ctx.floor('keyobj_pub_after_dh', 10)
+    if not ctx.failures:
+        if ctx.labels.get('keyobj_entropy_not_injected'):
+            raise HarnessError('EccKey.generate() no longer draws through builtin.secrets / cryptography.ec; adapt _generate_key')
+        if ctx.labels.get('keyobj_scalar_unreadable'):
+            raise HarnessError('the private scalar of an EccKey object cannot be read any more; adapt _scalar_of')
     if ev.full_builtin_toolbox:
         for fn in TOOLBOX:
             ctx.floor('fn:' + fn, 50)
@@ -1161,8 +1747,13 @@ def replay(ctx, case) -> None:
         run_invalid_case(ctx, case['how'], i32(case['d']), i32(case['x']), i32(case['y']))
     elif kind == 'rpa':
         run_rpa_case(ctx, case)
+    elif kind == 'keyobj':
+        run_keyobj_case(ctx, case)
+    elif kind == 'small_secret':
+        run_small_secret_case(ctx, i32(case['d']), i32(case['x0']), case['odd'])
     elif kind == 'selection':
         ev = env(ctx)
+        judge_third_party_hidden(ctx, ev)
         if ev.selection_problem:
             ctx.fail('selection/library_not_selected', ev.selection_problem, {'kind': 'selection'})
         if ev.load_error:
